@@ -62,8 +62,8 @@ def make_device(tdgl, a):
                        length_units=a.get("length_units", "um"), scale=a.get("scale", 1.0), gamma=a.get("gamma", 10.0))
     if a.get("u") is not None:
         lay = dev.layer
-        layer = tdgl.Layer(coherence_length=lay.coherence_length, london_lambda=lay.london_lambda, thickness=lay.thickness,
-                           gamma=lay.gamma, u=a["u"])
+        sc = a.get("scale", 1.0)       # the values asked for (as harness/devices.py does), not read back from the cached object
+        layer = tdgl.Layer(coherence_length=1.0 * sc, london_lambda=2.0 * sc, thickness=0.1 * sc, gamma=a.get("gamma", 10.0), u=a["u"])
         d2 = tdgl.Device(dev.name, layer=layer, film=dev.film, holes=dev.holes, terminals=list(dev.terminals),
                          probe_points=dev.probe_points, length_units=dev.length_units)
         d2.mesh = dev.mesh
@@ -71,12 +71,13 @@ def make_device(tdgl, a):
     return dev
 
 
-def current_unit_scale(dev, current_units):
+def current_unit_scale(dev, current_units, a_scale=1.0):
     """I0 = K0 xi / 4 = Phi0 d / (2 pi mu0 lambda^2) in `current_units` (docs: K0 = 4 xi Bc2 / (mu0 Lambda),
     Bc2 = Phi0 / (2 pi xi^2), Lambda = lambda^2 / d); dimensionless inflow * I0 = current."""
     L = LEN[dev.length_units]
-    lam = float(dev.layer.london_lambda) * L
-    d = float(dev.layer.thickness) * L
+    # lambda and d as ASKED FOR when the device was built (harness devices: london_lambda = 2 scale, thickness = 0.1 scale)
+    lam = 2.0 * a_scale * L
+    d = 0.1 * a_scale * L
     return PHI0 * d / (2 * math.pi * MU0 * lam ** 2) / CUR[current_units]
 
 
@@ -152,7 +153,7 @@ def stationary_eps_run(tdgl, a, tmp):
     dev = fresh_device(tdgl, kind, xi=a.get("xi", 1.0), gamma=a.get("gamma", 10.0))
     dev.make_mesh(max_edge_length=a.get("mel", 0.8), smooth=a.get("smooth", 0))
     f = make_epsilon(a)
-    pts = float(dev.coherence_length.magnitude) * np.asarray(dev.mesh.sites)
+    pts = float(a.get("xi", 1.0)) * np.asarray(dev.mesh.sites)       # xi as asked for
     discriminates = None
     if callable(f):
         form = a["eps_form"]
@@ -257,7 +258,7 @@ HALF_ULP_UP = 2.0 ** -53      # 1 + y rounds to 1.0 for 0 <= y <= 2^-53 (ties to
 HALF_ULP_DOWN = 2.0 ** -54    # 1 + y rounds to 1.0 for -2^-54 <= y <= 0 (the spacing below 1.0 is 2^-53)
 
 
-def rounding_seed(solver, dt):
+def rounding_seed(solver, dt, gamma, u):
     """Rounding seed of the call site `psi_laplacian @ psi` at psi = 1, computed from the REAL operators of the run with
     the expression of solve_for_psi_squared: y_i = (dt/u) * sqrt(1 + gamma^2 |psi|^2) * ((eps - |psi|^2) psi + L psi)_i at
     psi = 1, eps = 1.  The update forms psi + y; if every fl(1 + y_i) is 1.0 the assembled Laplacian cannot move psi off
@@ -265,7 +266,8 @@ def rounding_seed(solver, dt):
     ops = solver.operators
     one = np.ones(ops.psi_laplacian.shape[0], dtype=np.complex128)
     a = np.absolute(one) ** 2
-    y = (dt / solver.u) * np.sqrt(1 + solver.gamma ** 2 * a) * ((solver.epsilon - a) * one + ops.psi_laplacian @ one)
+    # gamma, u: the values asked for through Layer(...); epsilon = 1 (the precondition of the property)
+    y = (dt / u) * np.sqrt(1 + gamma ** 2 * a) * ((1.0 - a) * one + ops.psi_laplacian @ one)
     if ops.fix_psi and ops.fixed_sites is not None and len(ops.fixed_sites):
         # pinned terminal sites: identity rows (row "sum" 1), re-imposed to exactly terminal_psi by the solver after every
         # step -- they cannot carry a seed; only the free rows (which still couple to the pinned sites) count
@@ -293,6 +295,8 @@ def nums_of(a):
 def stationary_run(tdgl, a, tmp, dev=None):
     """undriven run: no field, no currents, epsilon = 1 (on the cached harness device of `a`, or on the given Device object)"""
     a = dict(a, field=0.0, currents=None)
+    REQ_GAMMA = float(a.get("gamma", 10.0))                          # asked for through Layer(...), not read back
+    REQ_U = float(a["u"]) if a.get("u") is not None else 5.79        # documented default
     if a.get("stable", True):
         # keep the explicit part of the scheme linearly stable for amplitude perturbations (so that what is observed is the
         # presence or absence of a spurious source, not its amplification): dt_max <= u S / lambda_max, S = sqrt(1 + gamma^2),
@@ -304,7 +308,7 @@ def stationary_run(tdgl, a, tmp, dev=None):
         np.add.at(rows, em.edges[:, 0], w)
         np.add.at(rows, em.edges[:, 1], w)
         lam = 2 * float((rows / dev0.mesh.areas).max())
-        limit = float(dev0.layer.u) * math.sqrt(1 + float(dev0.layer.gamma) ** 2) / lam
+        limit = REQ_U * math.sqrt(1 + REQ_GAMMA ** 2) / lam
         dt0 = a.get("dt", 2.0 ** -6)
         ratio = (a.get("dt_max", 0.125) / dt0) if a.get("adaptive") else 1.0
         dt = min(dt0, 2.0 ** math.floor(math.log2(limit / ratio)))
@@ -319,7 +323,7 @@ def stationary_run(tdgl, a, tmp, dev=None):
                 "worst": {}, "nsites": 0, "nsteps": 0, "dt_last": None}
     dt_init, dt_max = a.get("dt", 2.0 ** -6), a.get("dt_max", 0.125)
     dt_largest = dt_max if a.get("adaptive") else dt_init
-    seed, seeded, seeded_thr = rounding_seed(cap["solver"], dt_largest)
+    seed, seeded, seeded_thr = rounding_seed(cap["solver"], dt_largest, REQ_GAMMA, REQ_U)
     if seeded != seeded_thr:
         raise RuntimeError(f"rounding seed: fl(1 + y) test ({seeded}) and half-ulp thresholds ({seeded_thr}) disagree")
     ev = []
@@ -359,12 +363,12 @@ def cell_outflow(mesh, J):
     return out, flux
 
 
-def terminal_geometry(dev):
+def terminal_geometry(dev, xi_requested=1.0):
     """Which boundary edges / boundary sites of the CURRENT mesh lie in which terminal, decided here from the terminal polygons
     and the mesh arrays (not read from Device.terminal_info(), whose bookkeeping is part of what is checked)."""
     mesh = dev.mesh
     em = mesh.edge_mesh
-    xi = float(dev.coherence_length.magnitude)
+    xi = float(xi_requested)          # the coherence length asked for when the device was built
     bidx = np.asarray(em.boundary_edge_indices)
     centres = xi * np.asarray(em.centers)[bidx]
     pts = xi * np.asarray(mesh.sites)
@@ -395,11 +399,11 @@ def conservation_trace(dev, a, ok, frames, err):
     bidx = np.asarray(em.boundary_edge_indices)
     blen = np.asarray(em.edge_lengths)[bidx]
     bedges = np.asarray(em.edges)[bidx]
-    I0_doc = current_unit_scale(dev, a.get("current_units", "uA"))      # independent constants: used at the coarse level
+    I0_doc = current_unit_scale(dev, a.get("current_units", "uA"), a.get("scale", 1.0))      # independent constants: used at the coarse level
     # fine level: the device's own K0 and xi (documented properties), so that the last digits of mu0 / Phi0 do not matter
     I0 = float((dev.K0 * dev.coherence_length / 4).to(a.get("current_units", "uA")).magnitude)
     tr["I0_ratio"] = I0 / I0_doc
-    tinfo = terminal_geometry(dev)
+    tinfo = terminal_geometry(dev, a.get("scale", 1.0))
     f_cur = currents_func(a)
     term_cell = np.zeros(len(mesh.sites), dtype=bool)
     share = {}          # terminal -> per-site share of the terminal's length (half of each boundary edge at the site)
